@@ -219,7 +219,7 @@ var fzFloats = [][]byte{{0xf9, 0x80, 0x00}, {0xf9, 0x00, 0x00}, {0xf9, 0x7e, 0x0
 	{0xfb, 0x80, 0, 0, 0, 0, 0, 0, 0}, {0xfb, 0x7f, 0xf0, 0, 0, 0, 0, 0, 0}, {0xfb, 0x43, 0xf0, 0, 0, 0, 0, 0, 0}, {0xf8, 0x00}, {0xf8, 0x18}, {0xf8, 0x1f}, {0xf8, 0xff},
 	{0xe0}, {0xf3}, {0xf4}, {0xf5}, {0xfc}, {0xfd}, {0xfe}, {0xff}}
 
-var fzKinds = []string{"int-boundary", "int-boundary", "int-near", "type-swap", "type-swap", "null", "null", "str-edit", "str-huge", "utf8", "len-inflate",
+var fzKinds = []string{"insert", "int-boundary", "int-boundary", "int-near", "type-swap", "type-swap", "null", "null", "str-edit", "str-huge", "utf8", "len-inflate",
 	"len-inflate", "drop", "dup", "swap", "absent-nofix", "nest-deep", "indef", "float", "tag", "bignum", "emb-stale", "truncate", "truncate", "trailing", "bytes"}
 
 func fzPick(r *mrand.Rand, nodes []*fzNode, pred func(*fzNode) bool) *fzNode {
@@ -398,6 +398,25 @@ func fzApply(r *mrand.Rand, root *fzNode, kind string) ([]byte, bool) {
 				p.kids[i+k], p.kids[j+k] = p.kids[j+k], p.kids[i+k]
 			}
 		}
+	case "insert":
+		n := fzPick(r, nodes, func(n *fzNode) bool { return n.mt == 4 || n.mt == 5 })
+		if n == nil {
+			return nil, false
+		}
+		w := 1
+		if n.mt == 5 {
+			w = 2
+		}
+		var el []*fzNode
+		for k := 0; k < w; k++ {
+			nw := &fzNode{par: n, rawOv: [][]byte{{0xf6}, {0xf6}, {0xf7}, {0x00}, {0x40}, {0x80}, {0xa0}, {0x60}, {0xf4}}[r.Intn(9)]}
+			if len(n.kids) > 0 && r.Intn(3) == 0 {
+				nw.rawOv = n.kids[r.Intn(len(n.kids))].bytes()
+			}
+			el = append(el, nw)
+		}
+		at := r.Intn(len(n.kids)/w+1) * w
+		n.kids = append(append(append([]*fzNode{}, n.kids[:at]...), el...), n.kids[at:]...)
 	case "nest-deep":
 		n := fzPick(r, nodes, anyNode)
 		pre := [][]byte{{0x81}, {0xa1, 0x00}, {0xc1}, {0xd8, 0x18}, {0x9f}, {0xbf, 0x00}, {0x82, 0x00}, {0xd8, 0x18, 0x41}}[r.Intn(8)]
@@ -562,6 +581,84 @@ func fzResign(key crypto.Signer, pss bool, body []byte) ([]byte, bool) {
 	}
 	s.kids[3].str, s.kids[3].emb = sig, nil
 	return root.bytes(), true
+}
+
+// ---- systematic sweep: the same few changes at every node of the honest message (shallow nodes first) ----
+
+type fzOp struct {
+	idx int // index of the node in pre-order
+	op  string
+}
+
+func (n *fzNode) depth() int {
+	d := 0
+	for p := n.par; p != nil; p = p.par {
+		d++
+	}
+	return d
+}
+
+// fzSweepOps lists the sweep for a message of the given shape: at most maxNodes nodes, shallow ones first.
+func fzSweepOps(honest []byte, maxNodes int) (ops []fzOp) {
+	root, rest, ok := fzParse(honest, 0)
+	if !ok || len(rest) != 0 {
+		return nil
+	}
+	nodes := root.all(nil)
+	order := make([]int, len(nodes))
+	for i := range order {
+		order[i] = i
+	}
+	// stable sort by depth
+	for d, out := 0, order[:0:0]; len(out) < len(nodes) && d < 64; d++ {
+		for i, n := range nodes {
+			if n.depth() == d {
+				out = append(out, i)
+			}
+		}
+		order = out
+	}
+	for _, i := range order[:min(len(order), maxNodes)] {
+		n := nodes[i]
+		ops = append(ops, fzOp{i, "null"})
+		switch {
+		case n.mt <= 1:
+			ops = append(ops, fzOp{i, "zero"}, fzOp{i, "max"})
+		case n.mt == 2 || n.mt == 3:
+			ops = append(ops, fzOp{i, "empty"})
+		case n.mt == 4 || n.mt == 5:
+			ops = append(ops, fzOp{i, "empty"}, fzOp{i, "insert-null"})
+		}
+	}
+	return ops
+}
+
+// fzApplyOp applies a sweep operation to a fresh instance of the message (same shape, other nonces).
+func fzApplyOp(h []byte, o fzOp) []byte {
+	root, rest, ok := fzParse(h, 0)
+	if !ok || len(rest) != 0 {
+		return h
+	}
+	nodes := root.all(nil)
+	if o.idx >= len(nodes) {
+		return h
+	}
+	n := nodes[o.idx]
+	switch o.op {
+	case "null":
+		n.rawOv = []byte{0xf6}
+	case "zero":
+		n.rawOv = []byte{0x00}
+	case "max":
+		n.rawOv = []byte{0x1b, 0xff, 0xff, 0xff, 0xff, 0xff, 0xff, 0xff, 0xff}
+	case "empty":
+		n.rawOv = []byte{n.mt << 5}
+	case "insert-null":
+		for k := 0; k < int(n.mt)-3; k++ { // one element for arrays, a pair for maps
+			n.kids = append(n.kids, &fzNode{par: n, rawOv: []byte{0xf6}})
+		}
+	}
+	return root.bytes()
 }
 
 // fzShapes: adversarial whole bodies that are not derived from the honest message.
@@ -804,6 +901,8 @@ type fzSrv struct {
 	dev  *env.Device
 	d    *raw.Driver
 	base map[string]uint64 // honest allocation per position
+	// the honest message of the position just measured (plaintext, and as sent), for the sweep
+	honestPlain, honestWire []byte
 }
 
 func (s *fzSrv) enrol() error {
@@ -1028,6 +1127,7 @@ func (s *fzSrv) one(p fzPos, q fzReq) int {
 	}
 	if q.kind == "honest" {
 		s.base[p.name] = meas.alloc
+		s.honestPlain, s.honestWire = append([]byte(nil), honestPlain...), append([]byte(nil), sentWire...)
 		c.Count("srv_honest_alloc", fmt.Sprintf("%s pos %s: %d KiB for %d B on the wire", cfgName(s.cf), p.name, meas.alloc>>10, len(sentWire)))
 		if meas.alloc*4 > fzAllocLimit(len(sentWire), 0) {
 			c.Note("allocation limit has less than 4x margin over the honest message at %s %s: %d bytes", cfgName(s.cf), p.name, meas.alloc)
@@ -1036,7 +1136,6 @@ func (s *fzSrv) one(p fzPos, q fzReq) int {
 			c.Fail("harness:honest-refused:"+p.name, id+": "+obs.Impl, "fuzz.server", params, obs)
 		}
 	}
-	_ = honestPlain
 	// release server-side module state of sessions that will not be continued
 	if p.msg >= 64 && p.msg < 255 && class == "successor" && sess >= 0 {
 		s.d.Do(raw.Step{Msg: 255, Sess: sess, BodyFrom: -1})
@@ -1064,18 +1163,40 @@ func (s *fzSrv) replaceEnv() {
 	_ = s.enrol()
 }
 
-func (s *fzSrv) run(nMut, nShapes int, envelope bool) {
+func (s *fzSrv) run(nMut, nShapes, nSweep int, envelope bool) {
 	c := s.c
 	r := c.Rng
 	shapes := fzShapes()
 	s.risky = false
-	for _, p := range fzPositions {
-		if time.Now().After(s.deadline) {
-			c.Note("time budget reached on the server side at %s %s", cfgName(s.cf), p.name)
-			return
+	t0, n0, full := time.Now(), s.nCase, nMut
+	for pi, p := range fzPositions {
+		// when the configuration is slower than planned, the later positions get fewer mutants (never fewer than 30) rather than none
+		if done := s.nCase - n0; done > 100 {
+			avg := time.Since(t0) / time.Duration(done)
+			can := int(time.Until(s.deadline)/time.Duration(len(fzPositions)-pi+2)/max(avg, time.Microsecond)) - 80
+			if nMut = max(min(full, can), 30); nMut < full {
+				c.Count("srv_reduced_mutants", fmt.Sprintf("%s pos %s: %d of %d", cfgName(s.cf), p.name, nMut, full))
+			}
 		}
+		s.honestPlain, s.honestWire = nil, nil
 		s.one(p, fzReq{kind: "honest"})
 		signed := p.msg == 32 || p.msg == 64
+		for _, op := range fzSweepOps(s.honestPlain, nSweep) {
+			s.one(p, fzReq{kind: "sweep:" + op.op, plain: func(h []byte) ([]byte, string) {
+				m := fzApplyOp(h, op)
+				if signed {
+					if rs, ok := fzResign(s.dev.Key, s.cf.spec.Type == protocol.RsaPssKeyType, m); ok {
+						return rs, "sweep:" + op.op + "+resign"
+					}
+				}
+				return m, ""
+			}})
+		}
+		if fzTunnelled(p.msg) {
+			for _, op := range fzSweepOps(s.honestWire, nSweep) {
+				s.one(p, fzReq{kind: "wire-sweep:" + op.op, wire: func(h []byte) ([]byte, string) { return fzApplyOp(h, op), "" }})
+			}
+		}
 		for i := 0; i < nMut; i++ {
 			resign := signed && i%2 == 1
 			s.one(p, fzReq{kind: "mut", plain: func(h []byte) ([]byte, string) {
@@ -1300,15 +1421,17 @@ func (w *fzResponder) CryptSession(ctx context.Context) (kex.Session, error) {
 
 type fzCli struct {
 	*fzRun
-	cf    srvCfg
-	e     *env.Env
-	dev   *env.Device
-	to1d  *cose.Sign1[protocol.To1d, []byte]
-	wrap  *fzResponder
-	base  map[string]uint64
-	hung  map[string]bool
-	seq   map[string][]int // honest request-type sequence per role
-	addrs []protocol.RvTO2Addr
+	cf   srvCfg
+	e    *env.Env
+	dev  *env.Device
+	to1d *cose.Sign1[protocol.To1d, []byte]
+	wrap *fzResponder
+	base map[string]uint64
+	hung map[string]bool
+	seq  map[string][]int // honest request-type sequence per role
+	// honest responses per role and exchange: as received, and (tunnelled ones) the plaintext before encryption
+	hWire, hPlain map[string][][]byte
+	addrs         []protocol.RvTO2Addr
 }
 
 func (s *fzCli) enrol() error {
@@ -1391,6 +1514,7 @@ func (s *fzCli) one(role string, k int, q fzResp) {
 	kind := q.kind
 	hit := false
 	var seq []int
+	var hWire, hPlain [][]byte
 	j0 := s.e.Journal.Len()
 	s.e.RT.Reset()
 	s.e.RT.RespHook = func(reqType int, resp *http.Response, body []byte) []byte {
@@ -1399,6 +1523,12 @@ func (s *fzCli) one(role string, k int, q fzResp) {
 		i := n
 		n++
 		seq = append(seq, reqType)
+		if q.kind == "honest" {
+			for len(hWire) <= i {
+				hWire = append(hWire, nil)
+			}
+			hWire[i] = append([]byte(nil), body...)
+		}
 		if i == k && q.wire != nil {
 			honest = body
 			nb, kd := q.wire(resp, body, s.rng)
@@ -1409,6 +1539,19 @@ func (s *fzCli) one(role string, k int, q fzResp) {
 			return nb
 		}
 		return body
+	}
+	if q.kind == "honest" {
+		s.wrap.mu.Lock()
+		s.wrap.mut = func(_ uint8, plain []byte) []byte {
+			mu.Lock()
+			defer mu.Unlock()
+			for len(hPlain) <= n {
+				hPlain = append(hPlain, nil)
+			}
+			hPlain[n] = append([]byte(nil), plain...)
+			return nil
+		}
+		s.wrap.mu.Unlock()
 	}
 	if q.plain != nil {
 		s.wrap.mu.Lock()
@@ -1466,6 +1609,7 @@ func (s *fzCli) one(role string, k int, q fzResp) {
 
 	if q.kind == "honest" {
 		s.seq[role] = seq
+		s.hWire[role], s.hPlain[role] = hWire, hPlain
 		s.base[role] = meas.alloc
 		c.Count("cli_honest_alloc", fmt.Sprintf("%s %s: %d KiB, exchanges %v", cfgName(s.cf), role, meas.alloc>>10, seq))
 		if err != nil || meas.panic != "" || meas.hang {
@@ -1646,18 +1790,35 @@ func fzRespVariants() []fzResp {
 	return out
 }
 
-func (s *fzCli) run(nMut, nVar int) {
+func (s *fzCli) run(nMut, nVar, nSweep int) {
 	c := s.c
 	variants := fzRespVariants()
+	t0, n0, full, posDone := time.Now(), s.nCase, nMut, 0
 	for _, role := range []string{"DI", "TO0", "TO1", "TO2"} {
 		s.risky = role == "TO2" // the only client role that starts goroutines of its own
 		s.one(role, -1, fzResp{kind: "honest"})
 		for k := range s.seq[role] {
-			if time.Now().After(s.deadline) {
-				c.Note("time budget reached on the client side at %s %s exchange %d", cfgName(s.cf), role, k)
-				return
+			if done := s.nCase - n0; done > 100 { // as on the server side: fewer mutants rather than skipped positions
+				avg := time.Since(t0) / time.Duration(done)
+				can := int(time.Until(s.deadline)/time.Duration(max(15-posDone, 1))/max(avg, time.Microsecond)) - nVar - 12
+				if nMut = max(min(full, can), 12); nMut < full {
+					c.Count("cli_reduced_mutants", fmt.Sprintf("%s %s exchange %d: %d of %d", cfgName(s.cf), role, k, nMut, full))
+				}
 			}
+			posDone++
 			tun := fzTunnelled(s.seq[role][k] + 1)
+			if k < len(s.hWire[role]) {
+				for _, op := range fzSweepOps(s.hWire[role][k], nSweep) {
+					s.one(role, k, fzResp{kind: map[bool]string{false: "sweep:", true: "wire-sweep:"}[tun] + op.op, wire: func(_ *http.Response, b []byte, _ *mrand.Rand) ([]byte, string) {
+						return fzApplyOp(b, op), ""
+					}})
+				}
+			}
+			if tun && k < len(s.hPlain[role]) {
+				for _, op := range fzSweepOps(s.hPlain[role][k], nSweep) {
+					s.one(role, k, fzResp{kind: "sweep:" + op.op, plain: func(b []byte, _ *mrand.Rand) ([]byte, string) { return fzApplyOp(b, op), "" }})
+				}
+			}
 			for i := 0; i < nMut; i++ {
 				if tun && i%2 == 0 {
 					s.one(role, k, fzResp{kind: "mut", plain: func(p []byte, r *mrand.Rand) ([]byte, string) { return fzMutate(r, p) }})
@@ -1704,7 +1865,7 @@ func fzConfigs(c *core.Ctx) []srvCfg {
 		{env.RSA2048, kex.DHKEXid14Suite, kex.CoseAes128CtrCipher, false},
 		{env.P384, kex.ECDH384Suite, kex.CoseAes256CbcCipher, true},
 		{env.RSA2048, kex.ASYMKEX2048Suite, kex.CoseAes128CbcCipher, false},
-		{env.P256, kex.ECDH256Suite, kex.AesCcm64_128_128Cipher, true},
+		{env.P256, kex.ECDH256Suite, kex.A192GcmCipher, true}, // the CCM suites of the specification are not registered in this library (kex.Available is false)
 		{env.RSAPSS2, kex.DHKEXid14Suite, kex.A256GcmCipher, false},
 		{env.RSAPKCS, kex.ASYMKEX3072Suite, kex.CoseAes256CtrCipher, false},
 	}
@@ -1727,7 +1888,8 @@ func RunC10(c *core.Ctx) {
 
 const fzRule = "server side: for each protocol position (10,12 | 20,22 | 30,32 | 60,62,64,66,68 first and second,70, and a client error message 255) and key type / " +
 	"key exchange / cipher configuration, a hand-built client (internal/raw) runs the honest messages up to the position in a fresh session against the real " +
-	"http.Handler + responders + SQLite, then sends ONE altered message: (a) structure-aware mutants of the honest body (an independent CBOR tree: integer " +
+	"http.Handler + responders + SQLite, then sends ONE altered message: (s) a systematic sweep over the nodes of the honest message, shallow nodes first (each node replaced by null; integers by 0 and 2^64-1; strings, arrays " +
+	"and maps emptied; a null element appended to arrays and maps; for 32/64 re-signed; for tunnelled messages on the plaintext and on the encrypted envelope); (a) random structure-aware mutants of the honest body (an independent CBOR tree: integer " +
 	"boundaries and neighbours, major-type swaps, null/undefined/absent, element drop/duplicate/swap, count and length heads inflated up to 2^64-1, non-shortest " +
 	"heads, indefinite heads with and without break, nesting up to 65000 deep, floats/simple/reserved heads, tags and bignums, string edits, 60000-byte strings, " +
 	"invalid UTF-8, byte-string wrappers with stale outer length, truncation at item boundaries and elsewhere, trailing data up to the 64 KiB limit and beyond, " +
@@ -1740,7 +1902,7 @@ const fzRule = "server side: for each protocol position (10,12 | 20,22 | 30,32 |
 	"failing body reader. Per request: panic (recovered), reply within 5 s, TotalAlloc delta <= 64 x request bytes + 8 MiB, reply = error message 255 that decodes " +
 	"(HTTP 500) or the regular successor (mutation without meaning); for non-POST methods and foreign paths HTTP 405/404. client side: fdo.DI, TO0Client.RegisterBlob, " +
 	"fdo.TO1 and fdo.TO2 run against the real server while ONE response (each exchange index of the honest run: 11,13 | 21,23 | 31,33 | 61,63,65,67,69,69,71) is replaced: " +
-	"mutants of the honest response as above (tunnelled responses: mutants of the plaintext, substituted inside the server before encryption, alternating with mutants " +
+	"the same sweep and mutants of the honest response as above (tunnelled responses: mutants of the plaintext, substituted inside the server before encryption, alternating with mutants " +
 	"of the encrypted envelope), random strings, adversarial bodies (also 1 MiB), Message-Type / Authorization / Content-Type / status variants. Per run: no panic, " +
 	"return within 10 s, allocation <= 4 x honest run + 64 x response bytes + 8 MiB, and success is a failure only when the replacement was not CBOR at all. " +
 	"evaluations = requests / client runs with one altered message (honest baselines included); distinct = distinct altered byte strings per position. " +
@@ -1768,10 +1930,10 @@ func fzChild(c *core.Ctx) {
 		}
 	}
 	f.lastFlush = f.from - 1
-	nSrv, nShapes, nCli, nVar := 60, 8, 20, 14
+	nSrv, nShapes, nCli, nVar, nSweep := 50, 8, 16, 14, 14
 	budget := fzBudget(c)
 	if !c.Quick() {
-		nSrv, nShapes, nCli, nVar = 500, 26, 160, 60
+		nSrv, nShapes, nCli, nVar, nSweep = 400, 26, 130, 60, 80
 	}
 	if b, err := strconv.Atoi(os.Getenv("C10_BUDGET_S")); err == nil && b > 0 {
 		budget = time.Duration(b) * time.Second
@@ -1796,8 +1958,10 @@ func fzChild(c *core.Ctx) {
 			continue
 		}
 		n0 := f.nCase
-		srv.run(nSrv, nShapes, ci == 0 || !c.Quick())
-		c.Note("server side %s: %d cases in %.1fs", cfgName(cf), f.nCase-n0, time.Since(t0).Seconds())
+		srv.run(nSrv, nShapes, nSweep, ci == 0 || !c.Quick())
+		if f.nCase >= f.from {
+			c.Note("server side %s: %d cases in %.1fs", cfgName(cf), f.nCase-max(n0, f.from-1), time.Since(t0).Seconds())
+		}
 
 		e, err = srvEnv(cf.spec) // a hang replaces the deployment
 		if err != nil {
@@ -1805,17 +1969,19 @@ func fzChild(c *core.Ctx) {
 		}
 		f.deadline = time.Now().Add(share - time.Since(t0))
 		t0, n0 = time.Now(), f.nCase
-		cli := &fzCli{fzRun: f, cf: cf, base: map[string]uint64{}, hung: map[string]bool{}, seq: map[string][]int{}, addrs: addrs}
+		cli := &fzCli{fzRun: f, cf: cf, base: map[string]uint64{}, hung: map[string]bool{}, hWire: map[string][][]byte{}, hPlain: map[string][][]byte{}, seq: map[string][]int{}, addrs: addrs}
 		cli.install(e)
 		if err := cli.enrol(); err != nil {
 			c.Fail("harness:enrol", err.Error(), "fuzz.client", core.Params{"cfg": cfgName(cf)}, core.Obs{})
 			cli.uninstall()
 			continue
 		}
-		cli.run(nCli, nVar)
+		cli.run(nCli, nVar, nSweep)
 		cli.uninstall()
 		cli.e.Reuse = false
-		c.Note("client side %s: %d cases in %.1fs", cfgName(cf), f.nCase-n0, time.Since(t0).Seconds())
+		if f.nCase >= f.from {
+			c.Note("client side %s: %d cases in %.1fs", cfgName(cf), f.nCase-max(n0, f.from-1), time.Since(t0).Seconds())
+		}
 	}
 	_ = os.Remove(f.caseFile)
 }
